@@ -252,7 +252,7 @@ theorem general_slots {E : Env} {uns : Bool} {types : List Ty} {t : Ty} {cs : Co
 def wrapOne (first second : Option UConv) : Option UConv :=
   match second with
   | none => first
-  | some s => some (.thenOrig first s)
+  | some s => some (.andThen first s)
 
 theorem wrapLoop_spec (fc : Convs) :
     ∀ (idxs : List Nat) (i : Nat) (convs convs' : Convs), wrapLoop fc i idxs convs = .ok convs' → idxs.Nodup →
